@@ -395,7 +395,7 @@ func run(id, tier string) int {
 	_ = os.MkdirAll(curDir, 0o755)
 	replayDir := filepath.Join(root, "evidence", "replay")
 	_ = os.MkdirAll(replayDir, 0o755)
-	if old, _ := filepath.Glob(filepath.Join(replayDir, id+"-*")); len(old) > 0 {
+	if old, _ := filepath.Glob(filepath.Join(replayDir, fmt.Sprintf("%s-*-s%d-*", id, seed))); len(old) > 0 {
 		for _, f := range old {
 			_ = os.Remove(f)
 		}
